@@ -212,6 +212,29 @@ def check_wgs_with_parameters(ctx, a, f, GM, w):
                {"WGS": W_, "ReferenceEllipsoid": R_, "f": f}, route=r)
 
 
+def check_parameters_updated(ctx, a, f, GM, w):
+    """The object tracks its public defining parameters live: gravity read once, then w and gm re-assigned, then read again = a fresh object built
+    with the new values (nothing remembered from the first read)."""
+    from ahrs.utils.geodesy import ReferenceEllipsoid
+    from ahrs.utils.wgs84 import WGS
+    r = "ReferenceEllipsoid/constants"
+    w2, GM2 = w * 0.9 + (1e-9 if w == 0 else 0.0), GM * 1.07
+
+    def read(E):
+        return np.array([float(E.equatorial_normal_gravity), float(E.polar_normal_gravity), float(E.normal_gravity(37.0)), float(E.normal_gravity(-62.0, 0.002 * a)), float(E.normal_gravity_constant)])
+    for lab, mk in (("ReferenceEllipsoid", lambda: ReferenceEllipsoid(a, f, GM, w)), ("WGS", lambda: WGS(a, f, GM, w))):
+        def seq():
+            E = mk()
+            first = read(E)
+            E.w, E.gm = w2, GM2
+            return first, read(E), read(ReferenceEllipsoid(a, f, GM2, w2))
+        out = call(seq)
+        if ctx.returned(out, clause="no-exception[w and gm re-assigned]", route=r):
+            _, after, fresh = out.value
+            ctx.le("after w and gm are re-assigned the object answers like a fresh one built with the new values", float(np.max(np.abs(after - fresh) / np.abs(fresh))), 1e-15,
+                   {"class": lab, "after": after, "fresh": fresh}, route=r)
+
+
 def check(case, ctx):
     from ahrs.utils.geodesy import ReferenceEllipsoid
     import ahrs.common.constants as C
@@ -222,6 +245,7 @@ def check(case, ctx):
         if ctx.returned(out, route="ReferenceEllipsoid/constants"):
             judge(ctx, out.value, a, f, GM, w, p["lats"], p["hs"])
         check_wgs_with_parameters(ctx, a, f, GM, w)
+        check_parameters_updated(ctx, a, f, GM, w)
     elif case.route == "body":
         nm = p["body"]
         a, b, GM, w = (float(getattr(C, nm + s)) for s in ("_EQUATOR_RADIUS", "_POLAR_RADIUS", "_GM", "_ROTATION"))
